@@ -21,14 +21,25 @@ CELTYPE_OF_BUILTIN_BASE = {"int": eff_int, "float": eff_float}
 
 
 class CallMixin:
+    def with_count(self, node: ast.AST, v: Val) -> Val:
+        """A parse tree handed to a callee keeps what this path knows about its number of children
+        (``len(tree.children) == 2`` tested before calling a helper with ``tree``)."""
+        node = strip_cast(node)
+        if isinstance(node, ast.Name) and v.rules is not None and v.kinds is None:
+            ck = self.env.get(node.id + "#count")
+            if ck is not None and ck.strs is not None and not any(x.startswith("=") for x in (v.strs or ())):
+                keep = FS(x for x in (v.strs or ()) if not x.startswith("="))
+                return Val(rules=v.rules, calls=v.calls, strs=keep | FS("=" + x for x in ck.strs), token=v.token, empty=v.empty, pos=v.pos)
+        return v
+
     def ev_Call(self, node: ast.Call) -> Val:
         func = node.func
         name = dotted(func)
         # -- super() -------------------------------------------------------
         if isinstance(func, ast.Attribute) and isinstance(func.value, ast.Call) and dotted(func.value.func) == "super":
             return self.super_call(func.attr, node)
-        args = [self.ev(a) for a in node.args]
-        kwargs = {k.arg: self.ev(k.value) for k in node.keywords if k.arg}
+        args = [self.with_count(a, self.ev(a)) for a in node.args]
+        kwargs = {k.arg: self.with_count(k.value, self.ev(k.value)) for k in node.keywords if k.arg}
         for k in node.keywords:
             if k.arg is None:
                 self.ev(k.value)
@@ -526,8 +537,11 @@ class CallMixin:
                 counts |= {str(c) for c in g.counts(r)}
                 if g.unbounded(r):
                     counts.add("+")
-            if tree.strs == FS({"0"}) and tree.pos is None:
+            if tree.strs is not None and "0" in tree.strs and tree.pos is None:
                 counts.add("0")
+            restricted = {x[1:] for x in (tree.strs or ()) if x.startswith("=")}
+            if restricted:
+                counts = restricted
             if isinstance(arg0, ast.Name) and (arg0.id + "#count") in self.env and self.env[arg0.id + "#count"].strs is not None:
                 counts = set(self.env[arg0.id + "#count"].strs)
         if pos:
